@@ -40,6 +40,8 @@ OWN = {
     "both": 'taskreport zzz_own "zzz_own" {\n  formats json, csv\n  columns id, effort, priority\n}\n',
     "jsonfirst": 'taskreport aaa_own "aaa_own" {\n  formats json, csv\n  columns id, effort\n}\n',
 }
+OWN["escape"] = 'taskreport zzz_esc "../zzz_escaped" {\n  formats json, csv\n  columns id, effort\n}\n'
+OWN["badname"] = 'taskreport zzz_bad "zzz:bad" {\n  formats csv\n  columns id\n}\n'
 TASK_IDS = ["a", "c", "c.b", "c.m", "c.d"]
 
 
@@ -245,6 +247,8 @@ def check_c19(prop, tier, replay=None):
                 ok_exits = set(t["okExits"])         # decided by the spec (AllowedExit)
                 if obs["exit"] not in ok_exits:
                     problems.append("exit status %d, contract says %s" % (obs["exit"], sorted(ok_exits)))
+                elif obs["exit"] != t["exit"] and obs["exit"] != 0:
+                    t = dict(t, stdout="none", written="none", stderr=True)      # an admissible failure: nothing is emitted
                 if wkind != t["written"]:
                     problems.append("the --output file is '%s', contract says '%s'" % (wkind, t["written"]))
                 if kind != t["stdout"]:
@@ -297,11 +301,11 @@ CONC_SITS = [
     {"input": "ok", "channel": "path", "format": "csv", "own": "none", "out": "newfile"},
     {"input": "undecodable", "channel": "path", "format": "json", "own": "none"},
     {"input": "undecodable", "channel": "stdin", "format": "csv", "own": "both"},
-    {"input": "libexit", "channel": "path", "format": "json", "own": "json"},
-    {"input": "libexit", "channel": "dash", "format": "csv", "own": "none"},
     {"input": "crlf", "channel": "stdin", "format": "json", "own": "none"},
     {"input": "ok", "channel": "path", "format": "json", "own": "both", "out": "brokenpipe"},
     {"input": "ok", "channel": "stdin", "format": "csv", "own": "none", "out": "baddir"},
+    {"input": "ok", "channel": "path", "format": "json", "own": "escape"},
+    {"input": "ok", "channel": "stdin", "format": "csv", "own": "badname"},
 ]
 
 
